@@ -945,3 +945,22 @@ Proof.
   apply run_never_ub; [by apply wf_declb_true| |apply rs0_inv].
   rewrite forallb_forall in Ho. apply Forall_forall. intros o Hin. apply wf_opb_true, Ho. by apply elem_of_list_In.
 Qed.
+
+(** World::clone at run level: when it returns, the new world is, storage by storage, the state of the
+    cloned world, and every existing world is untouched; every later step acts on one world only
+    ([set_world] replaces the current world), so the two evolve independently. *)
+Lemma step_clone_spec cfg d qs st st' obs : RInv d st -> step cfg d qs st OClone = Some (st', obs) ->
+  match cur_world st with
+  | None => st' = st
+  | Some w =>
+      (obs = [2%N; pcode PClone] /\ worlds st' = worlds st) \/
+      (obs = [1%N; N.of_nat (length (worlds st))] /\ worlds st' = worlds st ++ [Some w] /\ cur st' = cur st)
+  end.
+Proof.
+  intros HR. unfold step; cbv beta iota. destruct (cur_world st) as [w|] eqn:Hcw; [|by intros [= <- _]].
+  pose proof (RInv_cur d st w HR Hcw) as HW.
+  pose proof (clone_world_ok d (wd_archs d) w (clone_in st) HW) as Hc.
+  destruct (clone_world d (wd_archs d) w (clone_in st)) as [[[lt lz]|[w' cin]]|]; [| |done].
+  - intros [= <- <-]. by left.
+  - subst w'. intros [= <- <-]. right. done.
+Qed.
